@@ -68,7 +68,7 @@ def exec_cfg(job):
     t0 = time.time()
     out = {'cfg': cfg, 'paths': 0, 'decisions': 0, 'queries': 0, 'solver_s': 0.0, 'obligations': {},
            'violations': [], 'inconclusive': [], 'closed': False, 'functions': [], 'samples': [],
-           'replays': 0, 'wall': 0.0, 'pruned': 0, 'notes': {}}
+           'replays': 0, 'wall': 0.0, 'pruned': 0, 'notes': {}, 'second_solver': {'checked': 0, 'agree': 0, 'disagree': [], 'errors': 0}}
     cov = Coverage()
     try:
         mod = importlib.import_module(modname)
@@ -79,6 +79,8 @@ def exec_cfg(job):
                   max_decisions=cfg.get('max_decisions', 4000))
         ctx.sample_every = cfg.get('sample_every', 97)
         ctx.prefix = list(cfg.get('_prefix', []))
+        ctx.smtlog = []
+        ctx.smtlog_every = cfg.get('smt_every', 397)
         undo = h.install()
         cov.start()
         try:
@@ -93,6 +95,7 @@ def exec_cfg(job):
                    obligations=ctx.obligations, inconclusive=list(dict.fromkeys(ctx.inconclusive)),
                    closed=ctx.closed, functions=sorted(cov.seen), pruned=ctx.pruned_paths, notes=ctx.notes)
         out['samples'] = [h.render(a) for a in ctx.samples[:3]]
+        out['second_solver'] = cross_check(ctx.smtlog)
         # distinct violations by signature; replay each on the real code
         seen = {}
         for v in ctx.violations:
@@ -115,6 +118,43 @@ def exec_cfg(job):
         out['inconclusive'].append('harness error: ' + traceback.format_exc(limit=12))
     out['wall'] = round(time.time() - t0, 3)
     return out
+
+
+def cross_check(smtlog):
+    """decide a deterministic sample of the engine's queries again with cvc5 (a different solver)"""
+    res = {'checked': 0, 'agree': 0, 'disagree': [], 'errors': 0}
+    try:
+        import cvc5
+    except ImportError:
+        res['errors'] = -1
+        return res
+    for smt, z3res in smtlog:
+        try:
+            slv = cvc5.Solver()
+            slv.setOption('tlimit-per', '20000')
+            ip = cvc5.InputParser(slv)
+            ip.setStringInput(cvc5.InputLanguage.SMT_LIB_2_6, '(set-logic ALL)\n' + smt, 'q')
+            sm = ip.getSymbolManager()
+            ans = None
+            while True:
+                cmd = ip.nextCommand()
+                if cmd.isNull():
+                    break
+                r = str(cmd.invoke(slv, sm)).strip()
+                if r in ('sat', 'unsat', 'unknown'):
+                    ans = r
+                elif r.startswith('(error'):
+                    ans = 'error'
+            res['checked'] += 1
+            if ans == z3res:
+                res['agree'] += 1
+            elif ans in ('sat', 'unsat') and z3res in ('sat', 'unsat'):
+                res['disagree'].append((z3res, ans))
+            else:
+                res['errors'] += 1
+        except Exception:
+            res['errors'] += 1
+    return res
 
 
 def replay_one(mod, cfg, assignment, label):
@@ -198,6 +238,9 @@ def merge_split(results):
         m['inconclusive'] += r['inconclusive']
         m['functions'] = sorted(set(m['functions']) | set(r['functions']))
         m['samples'] += r['samples']
+        for k2 in ('checked', 'agree', 'errors'):
+            m['second_solver'][k2] = m['second_solver'].get(k2, 0) + r['second_solver'].get(k2, 0)
+        m['second_solver']['disagree'] = m['second_solver'].get('disagree', []) + r['second_solver'].get('disagree', [])
         for lab, (a, b) in r['obligations'].items():
             o = m['obligations'].setdefault(lab, [0, 0])
             o[0] += a
@@ -223,8 +266,16 @@ def finish(prop, tier, seed, meta, results, wall):
     functions = set()
     samples = []
     per_cfg = []
+    ss = {'checked': 0, 'agree': 0, 'disagree': 0, 'errors': 0}
     for r in results:
         cfg = r['cfg']
+        s2 = r.get('second_solver') or {}
+        ss['checked'] += s2.get('checked', 0)
+        ss['agree'] += s2.get('agree', 0)
+        ss['disagree'] += len(s2.get('disagree', []))
+        ss['errors'] += max(0, s2.get('errors', 0))
+        if s2.get('disagree'):
+            inconclusive.append('%s: z3 and cvc5 disagree on %d sampled queries' % (cfg['name'], len(s2['disagree'])))
         for k in tot:
             tot[k] += r.get(k, 0)
         functions.update(r['functions'])
@@ -311,6 +362,7 @@ def finish(prop, tier, seed, meta, results, wall):
             'paths': tot['paths'], 'paths_pruned_by_assumption': tot['pruned'],
             'solver_decided_branches': tot['decisions'], 'queries': tot['queries'],
             'solver_s': round(tot['solver_s'], 2), 'solver': 'z3 ' + _z3v(),
+            'second_solver': dict(ss, solver='cvc5 (python wheel)', rule='every 397th query of each exploration, at most 12 per configuration, re-decided from its SMT-LIB2 dump'),
             'obligations': n_obl, 'discharged': n_dis, 'obligations_by_label': oblig,
             'functions_encoded': sorted(functions), 'bounds': meta.get('bounds', {}).get(tier, meta.get('bounds')),
             'outside_bounds': meta.get('outside', ''), 'stubs': meta.get('stubs', []),
